@@ -1177,3 +1177,100 @@ Section Decimal.
     destruct Hwf as (A & B & C & D). unfold grid_wf, set_data. cbn [gr_data gr_mult gr_nx]. rewrite map_length. repeat split; auto.
   Qed.
 End Decimal.
+
+(* ------------------------------------------------------------------ multicolumn form with formatted numbers *)
+Section MulticolFormatted.
+  Local Open Scope R_scope.
+
+  Definition close_lists (a b : list R) : Prop := Forall2 (fun x y => Rabs (x - y) <= tol10 Rops) a b.
+
+  Lemma not_far_close x y : Rabs (x - y) <= tol10 Rops -> nltb Rops (tol10 Rops) (nabs Rops (nsub Rops x y)) = false.
+  Proof. intros H. rewrite nabs_R. cbn. apply Rltb_false. exact H. Qed.
+
+  Lemma need_remap_close : forall (l' w' l w : list R) (nx : list Z) (per : list bool),
+    close_lists l' l -> close_lists w' w -> need_remap Rops (header_vals l' w' nx per) l w nx = false.
+  Proof.
+    intros l' w' l w nx per Hl; revert w' w nx per.
+    induction Hl as [|a b l' l Hab _ IH]; intros w' w nx per Hw.
+    - destruct w', nx, per; reflexivity.
+    - destruct Hw as [|c e w' w Hce Hw]; [destruct nx, per; reflexivity|].
+      destruct nx as [|n ns]; [reflexivity|]. destruct per as [|p ps]; [reflexivity|].
+      cbn [header_vals need_remap]. rewrite (not_far_close _ _ Hab), (not_far_close _ _ Hce), Z.eqb_refl, IH by auto. reflexivity.
+  Qed.
+
+  Lemma fmt_header p fuel : forall (l w : list R) (nx : list Z) (per : list bool),
+    fmt_toks Rops p fuel (header_toks l w nx per) = header_toks (map (dec_round Rops p fuel) l) (map (dec_round Rops p fuel) w) nx per.
+  Proof.
+    induction l as [|a l IH]; intros [|b w] [|n nx] [|q per]; try reflexivity.
+    unfold fmt_toks in *. cbn [header_toks map fmt_tok]. rewrite IH. reflexivity.
+  Qed.
+
+  Lemma slice_map {A B} (f : A -> B) (l : list A) a n : slice (map f l) a n = map f (slice l a n).
+  Proof. unfold slice. rewrite skipn_map, firstn_map. reflexivity. Qed.
+
+  Lemma fmt_rows p fuel (g : grid R) :
+    fmt_toks Rops p fuel (multicol_rows Rops g) =
+    flat_map (fun ix => map TNum (map (dec_round Rops p fuel) (bin_centers Rops (gr_lower g) (gr_width g) ix)) ++
+                        map TNum (slice (map (dec_round Rops p fuel) (gr_data g)) (Z.to_nat (address (gr_mult g) (gr_nx g) ix)) (gmult g)))
+             (all_indices (gr_nx g)).
+  Proof.
+    unfold multicol_rows, fmt_toks. induction (all_indices (gr_nx g)) as [|ix l IH]; [reflexivity|].
+    cbn [flat_map]. rewrite !map_app, IH. f_equal. rewrite slice_map, !map_map. reflexivity.
+  Qed.
+
+  (* a multicolumn file as it is read back (every number rounded to p digits): as long as the rounded lower boundaries and
+     widths stay within the reader's tolerance (1e-10) of the receiving grid's, the file is read on the same-grid path and
+     every element comes back as its rounded value, in its own place *)
+  Lemma multicol_formatted_roundtrip p fuel (g g0 : grid R) :
+    grid_wf g -> geom_wf g -> grid_wf g0 -> same_geom g0 g ->
+    close_lists (map (dec_round Rops p fuel) (gr_lower g)) (gr_lower g) ->
+    close_lists (map (dec_round Rops p fuel) (gr_width g)) (gr_width g) ->
+    read_multicol Rops false g0 (fmt_toks Rops p fuel (write_multicol Rops g))
+    = Some (set_data g0 (map (dec_round Rops p fuel) (gr_data g)), []).
+  Proof.
+    intros Hwf (Hg1 & Hg2 & Hg3) Hwf0 ((Hsm & Hsn) & Hsl & Hsw) Hcl Hcw.
+    pose proof (wf_data_length g Hwf) as Hl. pose proof (wf_data_length g0 Hwf0) as Hl0.
+    pose proof Hwf as (Hm & Hp & Hne & _).
+    set (dr := dec_round Rops p fuel) in *.
+    unfold read_multicol. rewrite strip_fmt, strip_write_multicol.
+    pose proof (fmt_header p fuel (gr_lower g) (gr_width g) (gr_nx g) (gr_per g)) as FH.
+    pose proof (fmt_rows p fuel g) as FR.
+    change (THash :: TInt (Z.of_nat (gnd g)) :: ?x) with ([@THash R; TInt (Z.of_nat (gnd g))] ++ x).
+    unfold fmt_toks in FH, FR |- *. rewrite !map_app, FH, FR. cbn [map fmt_tok app]. fold dr.
+    unfold read_multicol_s.
+    assert (Hnd : gnd g0 = gnd g) by (unfold gnd; rewrite Hsn; reflexivity).
+    assert (Hpos0 : (0 <? Z.of_nat (gnd g))%Z = true).
+    { unfold gnd. destruct (gr_nx g); [congruence|]. reflexivity. }
+    rewrite Hnd, Z.eqb_refl, Hpos0. cbn [andb].
+    rewrite read_header_ok by (rewrite ?map_length; unfold gnd in *; lia).
+    rewrite Hsl, Hsw, Hsn, need_remap_close by auto.
+    unfold gmult, gnd in *. rewrite Hsm, Hsn in *.
+    assert (Hlen : length (all_indices (gr_nx g)) = npoints (gr_nx g)) by (apply all_indices_length; auto).
+    assert (A1 : map (fun ix => Z.to_nat (address (gr_mult g) (gr_nx g) ix)) (all_indices (gr_nx g))
+                 = arange 0 (Z.to_nat (gr_mult g)) (length (all_indices (gr_nx g)))).
+    { rewrite Hlen. apply all_addresses; auto. }
+    assert (Hld : length (map dr (gr_data g)) = length (gr_data g)) by apply map_length.
+    assert (A2 : (0 + length (all_indices (gr_nx g)) * Z.to_nat (gr_mult g) <= length (map dr (gr_data g)))%nat) by (rewrite Hlen, Hld; lia).
+    assert (A4 : forall ix, In ix (all_indices (gr_nx g)) ->
+                 length (map dr (bin_centers Rops (gr_lower g) (gr_width g) ix)) = length (gr_nx g)).
+    { intros ix Hin. destruct (all_indices_spec (gr_nx g) Hp Hne) as [_ Hall].
+      rewrite Forall_forall in Hall. pose proof (in_range_length _ _ (Hall ix Hin)) as Hix.
+      rewrite map_length, bin_centers_length; lia. }
+    destruct (read_points_ok Rops (length (gr_nx g)) (Z.to_nat (gr_mult g)) false (gr_mult g) (gr_nx g) (map dr (gr_data g)) (gr_data g0)
+                (fun ix => map dr (bin_centers Rops (gr_lower g) (gr_width g) ix))
+                (all_indices (gr_nx g)) 0%nat (gr_data g0) [] A1 ltac:(lia) ltac:(lia) A2 A4 ltac:(intros j Hj; lia)
+                ltac:(intros; reflexivity)) as (data' & H1 & H2 & H3 & _).
+    rewrite app_nil_r in H1. rewrite H1. f_equal. f_equal. f_equal.
+    apply (nth_eq_lists data' (map dr (gr_data g)) 0); auto.
+    intros j Hj. rewrite H3; [reflexivity|]. rewrite Hlen. lia.
+  Qed.
+
+  (* the premise holds for boundaries and widths whose rounding error bound is below the reader's tolerance *)
+  Lemma close_when_small p fuel (xs : list R) :
+    Forall (fun x => (powerRZ 10 (- Z.of_nat fuel) <= Rabs x \/ x = 0) /\ / 2 * powerRZ 10 (1 - Z.of_nat p) * Rabs x <= tol10 Rops) xs ->
+    close_lists (map (dec_round Rops p fuel) xs) xs.
+  Proof.
+    intros H. induction H as [|x xs [Hx Hb] _ IH]; cbn [map]; constructor; auto.
+    eapply Rle_trans; [apply dec_round_err; exact Hx | exact Hb].
+  Qed.
+End MulticolFormatted.
